@@ -32,12 +32,15 @@ Dims == [
   edit  |-> {"none", "otherclaims"},
   flag  |-> {TRUE, FALSE},                \* op.Config.RequestObjectSupported
   ruri  |-> {"absent", "registered", "unregistered"},    \* redirect_uri claim of the object: none / another registered URI of A / a URI nobody registered
-  quri  |-> {"registered", "unregistered"} ]             \* redirect_uri parameter of the request itself
+  quri  |-> {"registered", "unregistered"},              \* redirect_uri parameter of the request itself
+  \* PKCE parameters (code_challenge and code_challenge_method travel together): of the query, and of the object
+  qpkce |-> {"s256", "absent"},
+  opkce |-> {"s256", "plain", "absent"} ]
 
-Bases == { [iss |-> "A", cid |-> "A", aud |-> "issuer", rtype |-> "code", by |-> "a1", kid |-> "ka1", alg |-> "RS256", edit |-> "none", flag |-> TRUE, ruri |-> "absent", quri |-> "registered"],
-           [iss |-> "A", cid |-> "A", aud |-> "issuer", rtype |-> "absent", by |-> "a2", kid |-> "ka2", alg |-> "ES256", edit |-> "none", flag |-> TRUE, ruri |-> "absent", quri |-> "registered"],
+Bases == { [iss |-> "A", cid |-> "A", aud |-> "issuer", rtype |-> "code", by |-> "a1", kid |-> "ka1", alg |-> "RS256", edit |-> "none", flag |-> TRUE, ruri |-> "absent", quri |-> "registered", qpkce |-> "s256", opkce |-> "s256"],
+           [iss |-> "A", cid |-> "A", aud |-> "issuer", rtype |-> "absent", by |-> "a2", kid |-> "ka2", alg |-> "ES256", edit |-> "none", flag |-> TRUE, ruri |-> "absent", quri |-> "registered", qpkce |-> "s256", opkce |-> "s256"],
            \* an object that is perfectly consistent - for ANOTHER client (B) than the one making the request (A)
-           [iss |-> "B", cid |-> "B", aud |-> "issuer", rtype |-> "code", by |-> "b1", kid |-> "kb1", alg |-> "ES256", edit |-> "none", flag |-> TRUE, ruri |-> "absent", quri |-> "registered"] }
+           [iss |-> "B", cid |-> "B", aud |-> "issuer", rtype |-> "code", by |-> "b1", kid |-> "kb1", alg |-> "ES256", edit |-> "none", flag |-> TRUE, ruri |-> "absent", quri |-> "registered", qpkce |-> "s256", opkce |-> "s256"] }
 Dev1(S) == S \cup UNION {UNION {{[t EXCEPT ![f] = v] : v \in Dims[f]} : f \in DOMAIN Dims} : t \in S}
 
 Groups == {"all"}
@@ -59,16 +62,24 @@ Accepts(c) == c.cid = Outer /\ c.rtype \in {"absent", "code"} /\ c.iss = c.cid /
               /\ c.edit = "none"
 \* the object's redirect_uri replaces the query's BEFORE the redirect-URI validation of either router
 \* a request that is refused is never answered with a redirect to a URI nobody registered (errTarget: none | registered | unregistered)
+\* the PKCE challenge the stored request must carry (C04 builds on it): the object's pair (challenge AND method) when the object
+\* overrides and carries one, else the query's pair, else none - never a challenge of one source with the method of the other
+StoredPKCE(c, src) == IF src = "obj" /\ c.opkce # "absent" THEN "obj" ELSE IF c.qpkce = "absent" THEN "none" ELSE "query"
 Decide(c) == LET eff == IF c.ruri # "absent" THEN c.ruri ELSE c.quri
                  r == IF c.flag /\ Accepts(c) /\ eff = "registered"
-                      THEN [class |-> "login", src |-> "obj", uri |-> IF c.ruri = "registered" THEN "objRegistered" ELSE "query", errTarget |-> "none"]
-                      ELSE [class |-> "refused", src |-> "none", uri |-> "none", errTarget |-> "none"] IN [P |-> r, L |-> r]
+                      THEN [class |-> "login", src |-> "obj", uri |-> IF c.ruri = "registered" THEN "objRegistered" ELSE "query", errTarget |-> "none",
+                            pkce |-> StoredPKCE(c, "obj")]
+                      ELSE [class |-> "refused", src |-> "none", uri |-> "none", errTarget |-> "none", pkce |-> "none"] IN [P |-> r, L |-> r]
 Outcomes(c) == {Decide(c)}
 
 RulesRouter(r, c, o) ==
   { <<"C14.reqobj.override:" \o r, (o.class = "login" /\ o.src # "query") => MayOverride(c)>>,
     <<"C14.reqobj.whole:" \o r,    (o.class = "login") => o.src \in {"query", "obj"}>>,     \* never a mixture of both sources
     <<"C14.reqobj.complete:" \o r, (MustOverride(c) /\ (IF c.ruri # "absent" THEN c.ruri ELSE c.quri) = "registered") => (o.class = "login" /\ o.src = "obj")>>,
+    <<"C14.reqobj.pkce:" \o r, (o.class = "login" /\ o.src \in {"query", "obj"}) => o.pkce = StoredPKCE(c, o.src)>>,
+    \* C04 "whenever the request carried a PKCE code challenge, the presented code_verifier matches it": the challenge the token endpoint
+    \* will hold the verifier against is the one - challenge and transformation - of the request as it counts (object over query)
+    <<"C04.reqobj.pkce:" \o r, (o.class = "login" /\ o.src \in {"query", "obj"}) => o.pkce = StoredPKCE(c, o.src)>>,
     <<"C14.reqobj.override.uri:" \o r, (o.class = "login" /\ o.uri # "query") => MayOverride(c)>>,
     \* C03: whatever the request (object) contains, the request that is stored - and later answered - names a registered redirect URI
     <<"C03.reqobj.redirect:" \o r, (o.class = "login") => o.uri \notin {"objUnregistered", "queryUnregistered"}>>,
@@ -78,5 +89,5 @@ RulesRouter(r, c, o) ==
     <<"C09.nopanic:" \o r, o.class # "panic">> }
 Rules(c, o) == RulesRouter("P", c, o.P) \cup RulesRouter("L", c, o.L)
 Check(c, o) == {r[1] : r \in {x \in Rules(c, o) : ~x[2]}}
-Conforms(c, o) == \A r \in {"P", "L"} : o[r].class = Decide(c)[r].class /\ o[r].src = Decide(c)[r].src /\ o[r].uri = Decide(c)[r].uri
+Conforms(c, o) == \A r \in {"P", "L"} : o[r].class = Decide(c)[r].class /\ o[r].src = Decide(c)[r].src /\ o[r].uri = Decide(c)[r].uri /\ o[r].pkce = Decide(c)[r].pkce
 =============================================================================
